@@ -443,6 +443,29 @@ void SimBackend::RunTransfers() {
           res = "x=" + vec_str(mv.GetVarValues()());
           for (auto& kv : mv.GetConValues().GetMap()) res += " g" + std::to_string(kv.first) + "=" + vec_str(kv.second);
         }
+      } else if (kind == "PreUnit" || kind == "PreUnitDbl") {
+        // One original constraint carries a value, all others 0 - once with a positive, once with the negative value.
+        // Which delivered items receive it must not depend on the sign (nor on what other items carry).
+        int m = norig_c;
+        if (m <= 0) { res = "none"; }
+        else {
+          int item = salt % m;
+          auto pattern = [&](double val) {
+            std::string pr;
+            if (kind == "PreUnit") {
+              std::vector<int> y(m, 0); y[item] = (int)val;
+              auto mv = GetValuePresolver().PresolveGenericInt({{}, y});
+              for (auto& kv : mv.GetConValues().GetMap()) { if (kv.second.empty()) continue; pr += " g" + std::to_string(kv.first) + "="; for (int v : kv.second) pr += v == (int)val ? '#' : v == 0 ? '.' : '?'; }
+            } else {
+              std::vector<double> y(m, 0.0); y[item] = val;
+              auto mv = GetValuePresolver().PresolveGenericDbl({{}, y});
+              for (auto& kv : mv.GetConValues().GetMap()) { if (kv.second.empty()) continue; pr += " g" + std::to_string(kv.first) + "="; for (double v : kv.second) pr += v == val ? '#' : v == 0 ? '.' : '?'; }
+            }
+            return pr;
+          };
+          std::string a = pattern(7), b = pattern(-7);
+          res = "item=" + std::to_string(item) + " pos:" + a + " | neg:" + b;
+        }
       } else {
         res = "unknown-op";
       }
